@@ -63,8 +63,10 @@ type BlockExecutor struct {
 	quit          chan struct{}  // blockchain quit channel
 	procInterrupt atomic.Bool    // interrupt signaler for block processing
 
-	// cache the verification results over a single height
-	cache map[common.Hash]struct{}
+	// cache the verification results over a single height: the block object that passed
+	// validation, by header hash. The header hash does not cover the last commit's height, round
+	// and block id (nor, without ValidateBasic, the body), so only the very same object is a hit.
+	cache map[common.Hash]*types.Block
 }
 
 // NewBlockExecutor returns a new BlockExecutor with a NopEventBus.
@@ -77,7 +79,7 @@ func NewBlockExecutor(stateStore Store, logger log.Logger, evpool EvidencePool, 
 		quit:   make(chan struct{}),
 
 		logger: logger,
-		cache:  make(map[common.Hash]struct{}),
+		cache:  make(map[common.Hash]*types.Block),
 	}
 }
 
@@ -92,14 +94,14 @@ func (blockExec *BlockExecutor) SetEventBus(b *types.EventBus) {
 // ie. to verify evidence from a validator at an old height.
 func (blockExec *BlockExecutor) ValidateBlock(state LatestBlockState, block *types.Block) error {
 	hash := block.Hash()
-	if _, ok := blockExec.cache[hash]; ok {
+	if cached, ok := blockExec.cache[hash]; ok && cached == block {
 		return nil
 	}
 
 	if err := validateBlock(blockExec.evpool, blockExec.store, state, block); err != nil {
 		return err
 	}
-	blockExec.cache[hash] = struct{}{}
+	blockExec.cache[hash] = block
 	return nil
 }
 
@@ -147,7 +149,7 @@ func (blockExec *BlockExecutor) ApplyBlock(state LatestBlockState, blockID types
 	fail.Fail() // XXX
 
 	// clear the verification cache
-	blockExec.cache = make(map[common.Hash]struct{})
+	blockExec.cache = make(map[common.Hash]*types.Block)
 
 	// Events are fired after everything else.
 	// NOTE: if we crash between Commit and Save, events wont be fired during replay
